@@ -574,8 +574,12 @@ func extSortStrings(fr *Frame, ins ssa.Instruction, c *ssa.CallCommon, args []Va
 	fx := fr.fx
 	s := args[0].t
 	fx.frameCheckSliceWrite(fr, ins, st, s, types.Typ[types.String], fr.describe(c.Args[0]))
-	_, hNew := sliceCellsHavoc(fx, st, types.Typ[types.String], s)
+	hOld, hNew := sliceCellsHavoc(fx, st, types.Typ[types.String], s)
+	// permutation: every new element is an old element (and vice versa)
+	pf := fx.s.fresh("sortperm")
+	fx.s.lines = append(fx.s.lines, fmt.Sprintf("(declare-fun %s (Int) Int)", pf))
+	fx.s.assume(st.guard, fmt.Sprintf("(forall ((j Int)) (! (=> (and (<= 0 j) (< j (slen %s))) (and (<= 0 (%s j)) (< (%s j) (slen %s)) (= (select %s (elemref %s j)) (select %s (elemref %s (%s j)))))) :pattern ((select %s (elemref %s j)))))", s, pf, pf, s, hNew, s, hOld, s, pf, hNew, s))
 	// ascending order
-	fx.s.assume(st.guard, fmt.Sprintf("(forall ((i Int) (j Int)) (=> (and (<= 0 i) (< i j) (< j (slen %s))) (str.<= (select %s (mkref (sobj %s) (+ (soff %s) i))) (select %s (mkref (sobj %s) (+ (soff %s) j))))))", s, hNew, s, s, hNew, s, s))
+	fx.s.assume(st.guard, fmt.Sprintf("(forall ((i Int) (j Int)) (! (=> (and (<= 0 i) (< i j) (< j (slen %s))) (str.<= (select %s (elemref %s i)) (select %s (elemref %s j)))) :pattern ((elemref %s i) (elemref %s j))))", s, hNew, s, hNew, s, s, s))
 	return nil
 }
